@@ -249,6 +249,11 @@ def report(a, seed, mine, results, t0):
     try:
         for ob_, (c, exp) in zip(native_replay(xc_cases), xc_expect):
             if 'error' in ob_:
+                if 'cannot rebuild' in ob_['error']:
+                    # the sample holds a value the recipe cannot express (a havocked queue element): no input
+                    xc['not_rebuildable'] = xc.get('not_rebuildable', 0) + 1
+                    xc['inputs'] -= 1
+                    continue
                 xc['disagree'].append({'contract': c.name, 'error': ob_['error'][-300:]})
                 continue
             if ob_.get('hang'):
